@@ -1,7 +1,7 @@
 #!/bin/bash
 # Runs the repository's pinned baseline command (sequential, as in /root/.vp/BASELINE.json) on /repo and compares with stable_pass.
 out=/tmp/wt/baseline.$$.xml
-cd /repo && OMP_NUM_THREADS=4 /venv/bin/python -m pytest -ra -q -p no:cacheprovider --timeout=900 --continue-on-collection-errors --junitxml=$out > /tmp/wt/baseline.$$.log 2>&1
+cd /repo && LOKY_MAX_CPU_COUNT=2 OMP_NUM_THREADS=2 /venv/bin/python -m pytest -ra -q -p no:cacheprovider --timeout=900 --continue-on-collection-errors --junitxml=$out > /tmp/wt/baseline.$$.log 2>&1
 python3 - "$out" <<'PY'
 import json, sys
 import xml.etree.ElementTree as ET
